@@ -31,6 +31,8 @@ type ake struct {
 
 	// ssid of the exchange in progress
 	ssid [8]byte
+	// whether we sent the reveal signature message of the exchange in progress
+	sentRevealSig bool
 
 	state authState
 	keys  keyManagementContext
